@@ -74,6 +74,10 @@ public:
 			case 'c': r.set_cookie(cppcms::http::cookie("ck" + std::to_string(n),"cv" + std::to_string(n*3))); break;
 			case 'm': if(!raw_hdr && key.empty()){ int m = (int)n; if(m == 1) r.io_mode(cppcms::http::response::nogzip); else if(m == 3 && is_asynchronous()) r.io_mode(cppcms::http::response::asynchronous); } break;
 			case 'a': if(is_asynchronous()) r.full_asynchronous_buffering(n != 0); break;
+			case 'r': if(pos == 0 && !raw_hdr && key.empty()){ raw_hdr = true; r.io_mode(is_asynchronous() ? cppcms::http::response::asynchronous_raw : cppcms::http::response::raw);
+					// the application writes its own (CGI style) header block, in pieces of n bytes
+					std::string hb = "Content-Type: text/plain\r\nX-Raw: yes\r\nStatus: 200 OK\r\n\r\n"; size_t step = n > 0 ? (size_t)n : hb.size();
+					for(size_t o=0;o<hb.size();o+=step){ r.out().write(hb.data()+o,std::min(step,hb.size()-o)); if(n % 2) r.out() << std::flush; } } break;
 			case 'l': { std::ostringstream ss; ss << n; r.content_length(n); } break;
 			case 't': if(key.empty()) r.content_type(n == 0 ? "text/plain" : n == 1 ? "application/octet-stream" : "text/html; charset=utf-8"); break;
 			default: break; }
@@ -152,6 +156,8 @@ struct Exchange {
 	int close_after = -1;             // client closes (both directions) after sending this many bytes of this exchange
 	int halfclose_after = -1;         // client half-closes after this many bytes
 	int reset_after = -1;
+	int abort_after = -1;             // fault: the client resets the connection after receiving this many bytes of the response
+	bool aborted = false;
 	bool stall = false;               // never sends more than stall_at bytes and never closes
 	// result
 	bool done = false; bool timed_out = false; bool conn_closed_early = false; std::string raw; Response resp; FcgiOut fo; int64_t t_start = 0, t_sent = -1, t_done = -1;
@@ -225,7 +231,9 @@ struct Client : simk::Actor {
 			return;
 		}
 		if(wr){ size_t want = rpi < read_pace.size() && read_pace[rpi] > 0 ? (size_t)read_pace[rpi] : 1u<<20; if(!read_pace.empty()) rpi = (rpi+1) % read_pace.size();
-			size_t k = c->recv(in,want); simk::trace_mix(0xC11F00 + k); if(c->eof()) eof_seen = true; try_parse(); }
+			size_t k = c->recv(in,want); simk::trace_mix(0xC11F00 + k); if(c->eof()) eof_seen = true;
+			if(E().abort_after >= 0 && (int)in.size() >= E().abort_after && !E().done){ E().aborted = true; c->do_reset(); finish_all(true); return; }
+			try_parse(); }
 	}
 };
 
@@ -330,15 +338,17 @@ struct E1 : Engine {
 				if(prop == "C03" || (prop != "C01" && r.below(4) == 0)){
 					// writer exchange
 					std::string sc; int n = r.below(thorough ? 40 : 14); static const int sizes[] = {0,1,2,63,64,65,1023,1024,1025,4096,16383,16384,16385,65534,65535,65536,65537,100000,200000};
-					bool am = async_mount && r.below(2); if(r.below(3)==0) sc += "b" + std::to_string(r.below(4) ? bufs[r.below(6)] : 0) + ".";
-					if(r.below(3)==0) sc += "m" + std::string(am ? "3" : r.below(2) ? "1" : "0") + "."; if(async_mount && r.below(3)==0) sc += std::string("a") + (r.below(2) ? "1" : "0") + ".";
+					bool am = async_mount && r.below(2); bool rawmode = r.below(6) == 0;
+					if(rawmode) sc += "r" + std::to_string(r.below(3) ? 1 + r.below(70) : 0) + ".";
+					if(r.below(3)==0) sc += "b" + std::to_string(r.below(4) ? bufs[r.below(6)] : 0) + ".";
+					if(!rawmode && r.below(3)==0) sc += "m" + std::string(am ? "3" : r.below(2) ? "1" : "0") + "."; if(async_mount && r.below(3)==0) sc += std::string("a") + (r.below(2) ? "1" : "0") + ".";
 					int nh = r.below(4); for(int k=0;k<nh;k++) sc += "h" + std::to_string(r.below(50)) + "."; int nck = r.below(3); for(int k=0;k<nck;k++) sc += "c" + std::to_string(r.below(50)) + ".";
 					if(r.below(4)==0) sc += "t" + std::to_string(r.below(3)) + ".";
 					size_t total = 0; for(int k=0;k<n;k++){ unsigned x = r.below(10); if(x < 6){ size_t sz = r.below(3) ? r.below(300) : sizes[r.below(19)]; if(total + sz > (thorough ? 400000u : 150000u)) sz = 10; total += sz; sc += "w" + std::to_string(sz) + "."; } else if(x < 8) sc += "f."; else if(x == 8) sc += "b" + std::to_string(bufs[r.below(6)]) + "."; else sc += "p" + std::to_string(r.below(40)) + "."; }
 					{ // tiny buffers / channels make every byte a scheduling step: keep such runs small
 						int ob = (int)cfg.geti("output_buffer_size"), ab = (int)cfg.geti("async_output_buffer_size"), cc = (int)c.geti("cap_to_client"); int narrow = std::min(std::min(ob,ab),cc); size_t cap_total = narrow <= 8 ? 3000 : narrow <= 64 ? 20000 : 400000;
 						if(total > cap_total){ std::string sc2; size_t run = 0; size_t p0 = 0; while(p0 < sc.size()){ size_t q0 = sc.find('.',p0); if(q0 == std::string::npos) q0 = sc.size(); std::string t = sc.substr(p0,q0-p0); p0 = q0 + 1; if(!t.empty() && t[0] == 'w'){ size_t n0 = strtoul(t.c_str()+1,nullptr,10); if(run + n0 > cap_total) n0 = run < cap_total ? std::min<size_t>(cap_total-run,n0) % 97 : 3; run += n0; t = "w" + std::to_string(n0); } sc2 += t + "."; } sc = sc2; } }
-					e["kind"] = "writer"; e["script"] = sc; e["salt"] = (long long)r.below(100000); e["gzip"] = (int)(r.below(3) == 0); if(r.below(8) == 0){ e["cache"] = "pg" + std::to_string(r.below(2)); std::string sc3; size_t p0 = 0; while(p0 < sc.size()){ size_t q0 = sc.find('.',p0); if(q0 == std::string::npos) q0 = sc.size(); std::string t = sc.substr(p0,q0-p0); p0 = q0 + 1; if(!t.empty() && t[0] != 't' && t[0] != 'm') sc3 += t + "."; } e["script"] = sc3; }
+					e["kind"] = "writer"; e["script"] = sc; e["salt"] = (long long)r.below(100000); e["gzip"] = (int)(r.below(3) == 0); if(rawmode) e["gzip"] = 0; if(r.below(10) == 0) e["abort_after"] = (int)r.below(3000); if(!rawmode && r.below(8) == 0){ e["cache"] = "pg" + std::to_string(r.below(2)); std::string sc3; size_t p0 = 0; while(p0 < sc.size()){ size_t q0 = sc.find('.',p0); if(q0 == std::string::npos) q0 = sc.size(); std::string t = sc.substr(p0,q0-p0); p0 = q0 + 1; if(!t.empty() && t[0] != 't' && t[0] != 'm') sc3 += t + "."; } e["script"] = sc3; }
 				} else { e["kind"] = "echo"; e["req"] = gen_req(r,prop,thorough,async_mount,i); }
 				J fl = J::obj(); J pc = J::arr(); int npc = r.below(5); for(int k=0;k<npc;k++) pc.push((int)(1 + r.below(r.below(2) ? 8 : 400))); fl["params_chunks"] = pc; J sc2 = J::arr(); int nsc = r.below(5); for(int k=0;k<nsc;k++) sc2.push((int)(1 + r.below(r.below(2) ? 16 : 70000))); fl["stdin_chunks"] = sc2;
 				J pd = J::arr(); int npd = r.below(6); for(int k=0;k<npd;k++) pd.push((int)r.below(r.below(2) ? 8 : 256)); fl["paddings"] = pd; fl["request_id"] = 1 + (int)r.below(r.below(2) ? 3 : 65535); e["fcgi"] = fl;
@@ -457,7 +467,7 @@ struct E1 : Engine {
 		for(size_t i=0;i<fl.get("paddings").size();i++) e.fl.paddings.push_back((int)fl.get("paddings").a[i].as_int()); e.fl.request_id = (int)std::max<int64_t>(1,std::min<int64_t>(fl.geti("request_id",1),65535)); e.fl.keep_conn = e.keepalive;
 		const J &sg = je.get("seg"); for(size_t i=0;i<sg.size();i++) e.seg.push_back((int)sg.a[i].as_int());
 		if(je.gets("kind") == "writer"){
-			e.is_writer = true; e.script = je.gets("script"); e.salt = (uint64_t)je.geti("salt"); e.accept_gzip = je.geti("gzip");
+			e.is_writer = true; e.script = je.gets("script"); e.salt = (uint64_t)je.geti("salt"); e.accept_gzip = je.geti("gzip"); e.abort_after = je.has("abort_after") ? (int)std::max<int64_t>(0,je.geti("abort_after")) : -1;
 			Req r; r.method = "GET"; r.script = async_mount ? "/a" : "/s"; r.path = "/writer"; r.has_query = true; r.query = "s=" + e.script + "&salt=" + std::to_string(e.salt); if(!je.gets("cache").empty()) r.query += "&cache=" + je.gets("cache");
 			if(e.accept_gzip) r.headers.push_back({"Accept-Encoding","gzip"}); e.req = r;
 		} else e.req = req_from(je.get("req"));
@@ -540,11 +550,12 @@ struct E1 : Engine {
 		AW = nullptr;
 		// ------------------------------------------------------------ oracles
 		std::map<std::string,std::string> cache_pages;
-		int n_on_error = 0; int n_filtered = 0; int n_over_limit = 0; int n_gzip_empty = 0; int n_bad = 0, n_bad_refused = 0; int n_cache_hits = 0; int n_ex = 0, n_multi_seg = 0, n_body = 0, n_keepalive_followups = 0, n_writer = 0, n_gzip = 0, n_chunked = 0;
-		for(auto &cl:clients){ int port = 8080; bool conn_had_error = false;
+		int n_raw = 0, n_aborted = 0; int n_on_error = 0; int n_filtered = 0; int n_over_limit = 0; int n_gzip_empty = 0; int n_bad = 0, n_bad_refused = 0; int n_cache_hits = 0; int n_ex = 0, n_multi_seg = 0, n_body = 0, n_keepalive_followups = 0, n_writer = 0, n_gzip = 0, n_chunked = 0;
+		for(auto &cl:clients){ int port = 8080; bool conn_had_error = false; bool aborted_conn = false;
 			for(size_t i=0;i<cl->ex.size() && res.ok;i++){ Exchange &e = cl->ex[i]; n_ex++; if(e.seg.size() > 1) n_multi_seg++; if(e.req.has_body && !e.req.body.empty()) n_body++; if(i > 0 && !e.conn_closed_early) n_keepalive_followups++;
 				std::string who = std::string(cl->proto == 0 ? "http" : cl->proto == 1 ? "scgi" : "fastcgi") + " " + e.req.script + " request " + e.tag;
 				if(cl->refused){ res.fail("connection-refused",who + ": nobody listens"); break; }
+				if(e.aborted || (i > 0 && cl->ex[i-1].aborted) || (e.conn_closed_early && aborted_conn)){ aborted_conn = true; n_aborted++; int ent0 = aw.entered.count(e.tag) ? aw.entered[e.tag] : 0; if(ent0 > 1){ res.fail("handler-entered-twice",who + ": main() entered " + std::to_string(ent0) + " times"); break; } continue; }
 				if(!e.well_formed){ n_bad++; who += " (malformed: " + e.mut + ", then " + e.after + ")";
 					int ent = aw.entered.count(e.tag) ? aw.entered[e.tag] : 0;
 					if(ent > 1 && e.mut != "dup_tail"){ res.fail("handler-entered-twice",who + ": main() entered " + std::to_string(ent) + " times"); break; }
@@ -602,6 +613,8 @@ struct E1 : Engine {
 					else if(body != want){ size_t d = 0; while(d < body.size() && d < want.size() && body[d] == want[d]) d++; res.fail("response-body-mismatch",who + ": body has " + std::to_string(body.size()) + " bytes, the application wrote " + std::to_string(want.size()) + "; first difference at offset " + std::to_string(d) + " (script " + e.script.substr(0,120) + ")"); break; }
 					// headers and cookies the script set
 					size_t p = 0; std::string sc = e.script; bool served_from_cache = !ckey.empty();
+					if(sc.size() > 1 && sc[0] == 'r'){ n_raw++; served_from_cache = true;   // raw mode: only the application's own header block counts
+						if(hdr(e.resp,"X-Raw") != "yes"){ res.fail("response-header-missing",who + ": header X-Raw written by the application in raw mode is missing"); break; } }
 					while(p < sc.size() && !served_from_cache){ size_t q = sc.find('.',p); if(q == std::string::npos) q = sc.size(); std::string t = sc.substr(p,q-p); p = q + 1; if(t.size() < 2) continue; long n = strtol(t.c_str()+1,nullptr,10);
 						if(t[0] == 'h' && hdr(e.resp,"X-T" + std::to_string(n)) != "v" + std::to_string(n*7)){ res.fail("response-header-missing",who + ": header X-T" + std::to_string(n) + " set by the application is missing or wrong"); break; }
 						if(t[0] == 'c'){ bool found = false; for(auto &h:e.resp.headers) if(lower(h.first) == "set-cookie" && h.second.find("ck" + std::to_string(n) + "=cv" + std::to_string(n*3)) != std::string::npos) found = true; if(!found){ res.fail("response-header-missing",who + ": cookie ck" + std::to_string(n) + " set by the application is missing"); break; } } }
@@ -613,7 +626,7 @@ struct E1 : Engine {
 		if(res.ok) for(auto &kv:aw.on_error){ if(kv.second > 1) res.fail("upload-error-notified-twice","request " + kv.first + ": content filter on_error() called " + std::to_string(kv.second) + " times"); else if(aw.completed.count(kv.first)) res.fail("error-and-completion","request " + kv.first + ": on_error() was called and the handler completed as well"); n_on_error += kv.second; }
 		if(res.ok && leaked) res.fail("descriptor-leak",std::to_string(leaked) + " simulated descriptors still open after the service was destroyed");
 		if(res.ok && !aw.exception.empty()) res.fail("exception-escaped",aw.exception);
-		res.counters["filter_on_error_calls"] = n_on_error; res.counters["content_filter_requests"] = n_filtered; res.counters["filters_installed"] = aw.filters_installed; res.counters["over_limit_413"] = n_over_limit; res.counters["gzip_announced_empty_body"] = n_gzip_empty; res.counters["malformed_exchanges"] = n_bad; res.counters["malformed_refused_as_required"] = n_bad_refused; res.counters["page_cache_hits"] = n_cache_hits; res.counters["exchanges"] = n_ex; res.counters["multi_segment_requests"] = n_multi_seg; res.counters["requests_with_body"] = n_body; res.counters["keepalive_followups"] = n_keepalive_followups; res.counters["writer_responses"] = n_writer; res.counters["gzip_responses"] = n_gzip; res.counters["chunked_responses"] = n_chunked;
+		res.counters["raw_mode_responses"] = n_raw; res.counters["client_aborts_mid_response"] = n_aborted; res.counters["filter_on_error_calls"] = n_on_error; res.counters["content_filter_requests"] = n_filtered; res.counters["filters_installed"] = aw.filters_installed; res.counters["over_limit_413"] = n_over_limit; res.counters["gzip_announced_empty_body"] = n_gzip_empty; res.counters["malformed_exchanges"] = n_bad; res.counters["malformed_refused_as_required"] = n_bad_refused; res.counters["page_cache_hits"] = n_cache_hits; res.counters["exchanges"] = n_ex; res.counters["multi_segment_requests"] = n_multi_seg; res.counters["requests_with_body"] = n_body; res.counters["keepalive_followups"] = n_keepalive_followups; res.counters["writer_responses"] = n_writer; res.counters["gzip_responses"] = n_gzip; res.counters["chunked_responses"] = n_chunked;
 		res.counters["steps"] = (long long)st.steps; res.counters["switches"] = (long long)st.switches; res.counters["short_reads"] = (long long)st.short_reads; res.counters["short_writes"] = (long long)st.short_writes; res.counters["eagain"] = (long long)(st.eagain_r + st.eagain_w);
 		res.counters["eintr"] = (long long)st.eintr; res.counters["spurious_wakeups"] = (long long)st.spurious; res.counters["accepts"] = (long long)st.accepts; res.counters["bytes_to_server"] = (long long)st.bytes_rx; res.counters["bytes_to_client"] = (long long)st.bytes_tx;
 		res.counters["sim_seconds"] = 0; res.counters[rt == 0 ? "reactor_epoll" : rt == 1 ? "reactor_poll" : "reactor_select"] = 1;
